@@ -590,8 +590,11 @@ def _run(case: dict, root: str, res: dict) -> None:
                     res["violations"].append(viol)
                     if res["violation"] is None:
                         res["violation"] = viol
+                        # keep the evaluations before it: process-wide state (a cache in the code under test) may matter;
+                        # the minimiser tries the single triple first
                         c = copy.deepcopy(case)
-                        c["triples"] = [tr]
+                        c["triples"] = case["triples"][: ti + 1]
+                        c.pop("enumerated_chunk", None)
                         res["case"] = c
                 continue
             loc = tr["loc"].replace("{ROOT}", root)
@@ -735,7 +738,7 @@ def _run(case: dict, root: str, res: dict) -> None:
                 if res["violation"] is None:
                     res["violation"] = viol
                     c = copy.deepcopy(case)
-                    c["triples"] = [tr]
+                    c["triples"] = case["triples"][: ti + 1]
                     c.pop("enumerated_chunk", None)
                     res["case"] = c
                 if len(res["violations"]) >= 5:
@@ -751,10 +754,21 @@ def _run(case: dict, root: str, res: dict) -> None:
 def shrink_candidates(case: dict, violation: dict):
     # run_case already pins the single failing triple; try simpler spellings of the same triple
     if len(case["triples"]) > 1:
-        for tr in case["triples"]:
+        # the failing triple alone, then the failing triple after one earlier one, then halves of the prefix
+        trs = case["triples"]
+        c = copy.deepcopy(case)
+        c["triples"] = [trs[-1]]
+        yield c
+        for tr in trs[:-1]:
             c = copy.deepcopy(case)
-            c["triples"] = [tr]
+            c["triples"] = [tr, trs[-1]]
             yield c
+        n = len(trs) - 1
+        if n > 2:
+            for part in (trs[: n // 2], trs[n // 2 : n]):
+                c = copy.deepcopy(case)
+                c["triples"] = part + [trs[-1]]
+                yield c
         return
     tr = case["triples"][0]
     if tr["level"] == "history":
